@@ -28,6 +28,7 @@ import (
 	"unicode/utf8"
 
 	"github.com/dlclark/regexp2/v2"
+	"github.com/dlclark/regexp2/v2/compat"
 )
 
 func init() {
@@ -674,6 +675,46 @@ func c07Unit(c *Ctx, st *c07Stats, cre *c07Re, pat string, rtl bool, extra regex
 				d = append(d, fmt.Sprintf("FindAllStringIndex(n=%d) failed: %v", n, e))
 			} else if !c07EqPairs(gotS, wantB) {
 				d = append(d, fmt.Sprintf("FindAllStringIndex(n=%d) = %v (nil=%v), filtered iteration in bytes = %v (nil=%v)", n, gotS, gotS == nil, wantB, wantB == nil))
+			}
+			// the regexp-compatible adapter's find-all methods: some delegate, some iterate with FindNextMatch themselves
+			// (valid UTF-8 only: on invalid bytes the adapter's offsets follow Go's rules, C06's business)
+			if e == nil && utf8.ValidString(in) {
+				func() {
+					defer func() {
+						if pp := recover(); pp != nil {
+							d = append(d, fmt.Sprintf("compat find-all (n=%d) panicked: %v", n, pp))
+						}
+					}()
+					cw := compat.Wrap(re)
+					head := func(x [][]int) [][]int {
+						var o [][]int
+						for _, r := range x {
+							o = append(o, r[:2])
+						}
+						return o
+					}
+					for name, gotC := range map[string][][]int{
+						"FindAllStringIndex":         cw.FindAllStringIndex(in, n),
+						"FindAllIndex":               cw.FindAllIndex([]byte(in), n),
+						"FindAllStringSubmatchIndex": head(cw.FindAllStringSubmatchIndex(in, n)),
+						"FindAllSubmatchIndex":       head(cw.FindAllSubmatchIndex([]byte(in), n)),
+					} {
+						if !c07EqPairs(gotC, wantB) && !(len(gotC) == 0 && len(wantB) == 0) {
+							d = append(d, fmt.Sprintf("compat %s(n=%d) = %v, filtered iteration in bytes = %v", name, n, gotC, wantB))
+						}
+					}
+					strs := cw.FindAllString(in, n)
+					if len(strs) != len(wantB) {
+						d = append(d, fmt.Sprintf("compat FindAllString(n=%d) returns %d strings, the filtered iteration has %d", n, len(strs), len(wantB)))
+					} else {
+						for k, w := range wantB {
+							if strs[k] != in[w[0]:w[1]] {
+								d = append(d, fmt.Sprintf("compat FindAllString(n=%d)[%d] = %q, want %q", n, k, strs[k], in[w[0]:w[1]]))
+								break
+							}
+						}
+					}
+				}()
 			}
 		}
 		cs := &Case{Desc: fmt.Sprintf("%s start=%d n=%d", desc, start, n), Class: origin,
